@@ -246,6 +246,19 @@ Theorem closed_step_unify_error_refuted :
 Proof. exact unify_reconstruction_error_refuted_l. Qed.
 Print Assumptions closed_step_unify_error_refuted.
 
+(* the memo-resolved branch of the matrix reconstruction (unify_taxon_namespaces hands the memo filled by the
+   tree lists to the matrices): a second row that the memo sends to an occupied taxon is refused with
+   TaxonNamespaceReconstructionError, it does not overwrite the first - both rows are still there *)
+Theorem unify_shared_memo_collision :
+  let st := ex_state [Append 2 2 (SMigrate true); NewMat 2; NewSeq 0 4; NewSeq 0 5; NewDs;
+                      DsAdd 0 (ObjList 2); DsAdd 0 (ObjMat 0)] in
+  let o := Unify 0 None true in
+  Closed st /\ disciplined st o = true /\ snd (step ex_lower st o) = ORecon
+  /\ m_rows (getmat st 0) = [4; 5] /\ t_refs (gettree (fst (step ex_lower st o)) 2) = [6; 6]
+  /\ m_rows (getmat (fst (step ex_lower st o)) 0) = [5; 6].
+Proof. exact unify_shared_memo_collision_l. Qed.
+Print Assumptions unify_shared_memo_collision.
+
 (* ---- non-vacuity ---- *)
 (* a 62-step history that keeps to the discipline and uses every kind of operation *)
 Theorem hist_ok_example :
